@@ -70,9 +70,9 @@ func c19(c *Ctx) {
 				c.Undecided("switch-covers", construct, fmt.Sprintf("%d recording calls in one appender; rule expects one", len(recs)))
 				continue
 			}
-			kinds, ok := QaConstSet(recs[0].Call.Args[1])
+			kinds, ok := QaConstSet(BaselineArgs(&recs[0].Call)[1])
 			if !ok || len(kinds) == 0 {
-				c.Undecided("switch-covers", construct, "recorded frame type `"+Term(recs[0].Call.Args[1])+"` is not a finite set of constants")
+				c.Undecided("switch-covers", construct, "recorded frame type `"+Term(BaselineArgs(&recs[0].Call)[1])+"` is not a finite set of constants")
 				continue
 			}
 			var lacking []int64
@@ -248,10 +248,10 @@ func qaSameOffsetAndTrim(c *Ctx, hd string) {
 	}
 	w := ws[0].(*ssa.Call)
 	a := as[0].(*ssa.Call)
-	off := QaStripConv(w.Call.Args[2])
-	c.Check(off == QaStripConv(a.Call.Args[1]), "same-value", c1, w.Pos(), Term(off),
-		"writeAt stores at `"+Term(off)+"` but inset records a range starting at `"+Term(a.Call.Args[1])+"`")
-	data := QaStripConv(w.Call.Args[1])
+	off := QaStripConv(BaselineArgs(&w.Call)[2])
+	c.Check(off == QaStripConv(BaselineArgs(&a.Call)[1]), "same-value", c1, w.Pos(), Term(off),
+		"writeAt stores at `"+Term(off)+"` but inset records a range starting at `"+Term(BaselineArgs(&a.Call)[1])+"`")
+	data := QaStripConv(BaselineArgs(&w.Call)[1])
 	pb, okb := data.(*ssa.Phi)
 	po, oko := off.(*ssa.Phi)
 	if !okb && !oko {
